@@ -144,6 +144,15 @@ func Spin(label string) {
 	}
 }
 
+// SetClock sets the virtual clock (the system clock the program sees).  It is
+// meant for the first statement of a scenario body: the host's clock is part of
+// the environment a scenario chooses.
+func SetClock(t time.Time) {
+	if s := cur; s != nil {
+		s.now = t
+	}
+}
+
 // Now is time.Now on the virtual clock.
 func Now() time.Time {
 	s := cur
